@@ -109,11 +109,10 @@ def explore(n, funcs, index, enums, vocab=VOCAB):
             elif not want["accept"]:
                 bad = "accepted, but the expression is malformed (%s)" % want["why"]
             else:
-                got_paths = [p.text if p.sym is None else vocab[combo[toks.index(p.sym)]] if False else None for p in state["calls"]]
                 # calls carry RStr values: concrete text, or a symbolic token -> resolve through this completion
                 got_paths = []
                 for p in state["calls"]:
-                    if p.sym is None:
+                    if getattr(p, "sym", None) is None:          # concrete text (RStr, or PStr when natives_fs' path models are loaded in the same process)
                         got_paths.append(p.text)
                     else:
                         idx = [i for i, t in enumerate(toks) if t.eq(p.sym)][0]
